@@ -463,7 +463,7 @@ func init() {
 			if ctx.Tier == "thorough" {
 				return 15000000
 			}
-			return 400000
+			return 300000
 		},
 		Run: c07Run,
 		Describe: func(tier string, s *report.Stats, cases int) Evidence {
